@@ -2,7 +2,7 @@
    Only pinned statements, `exact`, and Print Assumptions live here. *)
 From Coq Require Import ZArith List Bool.
 From RV.Model Require Import Base Word.
-From RV.Model Require Add Shift Bits Conv Bytes Facade.
+From RV.Model Require Add Shift Bits Conv Bytes Mul UDiv Pow Gcd Str Facade.
 From RV.Run Require Import RunC20.
 From RV.Proofs Require PfFacade PfC20.
 Import ListNotations.
@@ -28,13 +28,11 @@ Check C20_wf_ct_gt : forall bits a b,
   wf (ct_gt bits a b) <-> 0 <= bits /\ canon bits a /\ canon bits b.
 Print Assumptions C20_wf_ct_gt.
 
-Theorem C20_wf_op_mul : forall bits shape a b obs,
-  wf (op_mul bits shape a b obs) <->
-  0 <= bits /\ 0 <= shape < 6 /\ canon bits a /\ canon bits b /\ obs_okb bits obs = true.
+Theorem C20_wf_op_mul : forall bits shape a b,
+  wf (op_mul bits shape a b) <-> 0 <= bits /\ 0 <= shape < 6 /\ canon bits a /\ canon bits b.
 Proof. exact PfC20.wf_op_mul. Qed.
-Check C20_wf_op_mul : forall bits shape a b obs,
-  wf (op_mul bits shape a b obs) <->
-  0 <= bits /\ 0 <= shape < 6 /\ canon bits a /\ canon bits b /\ obs_okb bits obs = true.
+Check C20_wf_op_mul : forall bits shape a b,
+  wf (op_mul bits shape a b) <-> 0 <= bits /\ 0 <= shape < 6 /\ canon bits a /\ canon bits b.
 Print Assumptions C20_wf_op_mul.
 
 (* Prop-level restatements: the constant-time comparisons are the integer comparisons and the
@@ -139,5 +137,7 @@ Example C20_nonvacuous :
   run (nt_swap_bytes 9 [2]) = Val [TErr 1; TErr 0; TNone] /\
   spec (nt_swap_bytes 9 [2]) (run (nt_swap_bytes 9 [2])) = true /\
   run (op_bitxor 65 2 [5; 1] [3; 1]) = Val [TL [6; 0]; TErr 0; TL [6; 0]] /\
-  run (ct_bit 8 [5] 8) = Val [TB false; TErr 0; TB false].
+  run (ct_bit 8 [5] 8) = Val [TB false; TErr 0; TB false] /\
+  run (ni_extended_gcd 64 [12] [18]) = Val [TL [6]; TL [1]; TL [1]; TErr 0; TL [6]; TL [1]; TL [1]] /\
+  run (op_div 64 2 [5] [0]) = Val [TErr 1; TErr 0; TErr 1].
 Proof. repeat split; vm_compute; reflexivity. Qed.
